@@ -95,7 +95,7 @@ __CPROVER_assigns(rtr_socket->version, rtr_socket->state, g_gh.errpdu_calls);
 	(((r) == 0 || (r) == -1) && (s)->session_id == O((s)->session_id) && (s)->version <= O((s)->version) && \
 	 (s)->last_update == O((s)->last_update) && ((s)->state == O((s)->state) || STATE_IS_ERR((s)->state)) && \
 	 ((r) == 0 ? (s)->state == O((s)->state) : 1) &&                                               \
-	 (((s)->version < O((s)->version) && O((s)->has_received_pdus)) ? ((r) == -1 && (s)->state == RTR_FAST_RECONNECT && g_gh.errpdu_calls > 0) : 1) && \
+	 (((s)->version < O((s)->version) && O((s)->has_received_pdus)) ? ((r) == -1 && (s)->state == RTR_FAST_RECONNECT) : 1) && \
 	 ((r) == 0 ? ((s)->serial_number == g_gh.eod_sn && (s)->request_session_id == O((s)->request_session_id) && !(s)->is_resetting && g_gh.store_ok) \
 		   : ((s)->serial_number == O((s)->serial_number) && ((s)->request_session_id == O((s)->request_session_id) || (s)->request_session_id) && !g_gh.store_ok)))
 static int rtr_sync_receive_and_store_pdus(struct rtr_socket *rtr_socket)
